@@ -32,6 +32,7 @@ type Prog struct {
 	noExport     map[string]bool      // ensures obligations with an open known finding: never assumed at call sites
 	ghostSets    map[*ssa.Function]map[string]bool
 	findings     map[string][]KnownFinding // by obligation name
+	immutableSorts map[string]bool         // heap sorts of struct types that are never written after construction
 }
 
 func loadProg(repo, verifDir string) (*Prog, error) {
@@ -137,6 +138,40 @@ func loadProg(repo, verifDir string) (*Prog, error) {
 		return nil, err
 	}
 	p.cs = cs
+	p.immutableSorts = map[string]bool{}
+	for tn, allow := range cs.Immutable {
+		t := p.lookupType(tn)
+		if t == nil {
+			return nil, fmt.Errorf("immutable: unknown type %s", tn)
+		}
+		ok := map[string]bool{}
+		for _, a := range allow {
+			ok[a] = true
+		}
+		// syntactic check: fields of the type are only stored to in the listed functions
+		for fn := range ssautil.AllFunctions(prog) {
+			if fn.Pkg == nil || !strings.HasPrefix(fn.Pkg.Pkg.Path(), p.modulePath) || ok[fn.RelString(fn.Pkg.Pkg)] {
+				continue
+			}
+			for _, b := range fn.Blocks {
+				for _, in := range b.Instrs {
+					st, isSt := in.(*ssa.Store)
+					if !isSt {
+						continue
+					}
+					if fa, isFA := st.Addr.(*ssa.FieldAddr); isFA {
+						if pt, isP := fa.X.Type().Underlying().(*types.Pointer); isP && types.Identical(pt.Elem(), t) {
+							if _, isAlloc := fa.X.(*ssa.Alloc); isAlloc {
+								continue // a local value of the type being built
+							}
+							return nil, fmt.Errorf("immutable %s: %s stores to field %d", tn, fn, fa.Field)
+						}
+					}
+				}
+			}
+		}
+		p.immutableSorts[newSorts().sortOf(t)] = true
+	}
 	p.noExport = map[string]bool{}
 	var kf KFFile
 	if readJSON(filepath.Join(verifDir, "known_findings.json"), &kf) == nil {
